@@ -7,7 +7,8 @@ SPEC = {
                 # the rtnetlink layer that produces the addresses and their flags (shared with C13)
                 {"pkg": "internal/system", "test": "TestVerifC13Addresser", "corr_module": "Corr.C13sys"},
                 # real parallelism: wildcard expansions of several interfaces at the same time
-                {"pkg": "internal/plugin", "test": "TestVerifParallelApply", "arch386": []}],
+                {"pkg": "internal/plugin", "test": "TestVerifParallelApply", "arch386": []},
+                {"pkg": "internal/plugin", "test": "TestVerifNetnsWildcards", "arch386": []}],
     "rule": "plugin driver: bounded-exhaustive over every sequence with repetition of length <= 3 (quick) / <= 4 (thorough) of a 15-entry "
             "pool covering class (ULA, GUA, link-local, loopback, multicast) x stability source (valid-forever, manage-temporary, "
             "stable-privacy, EUI-64 pattern, none) x exclusion (deprecated, temporary, tentative, IPv4), one address with two flag sets; "
